@@ -124,7 +124,22 @@ func c10Layout(kind int, body func(name string) []mt.Stmt) ([]mt.Stmt, []string)
 func (p *c10) build(levels int, kinds [][]int, layout int, nameForm int, flag bool) (*mt.TmplSet, string, map[string]mt.Val, bool) {
 	set := mt.NewSet()
 	usesParent := false
-	base, names := c10Layout(layout, func(n string) []mt.Stmt { return []mt.Stmt{mt.T("B0." + n + "="), mt.P(mt.V("v"))} })
+	// in one chain of three every template defines a macro mk of its own; only the layout at the bottom calls it (in its text
+	// and in its block bodies, which overrides reach through parent()): what the layout prints is the layout's business
+	sameNamed := (levels*7+layout*5+len(kinds)+nameForm)%3 == 0
+	mk := func(lv int) mt.Stmt {
+		return mt.Macro{Name: "mk", Params: []string{"q"}, Body: []mt.Stmt{mt.T(fmt.Sprintf("<MK%d:", lv)), mt.P(mt.V("q")), mt.T(">")}}
+	}
+	base, names := c10Layout(layout, func(n string) []mt.Stmt {
+		b := []mt.Stmt{mt.T("B0." + n + "="), mt.P(mt.V("v"))}
+		if sameNamed {
+			b = append(b, mt.P(mt.MCall{Name: "mk", Args: []mt.Expr{mt.S(n)}}))
+		}
+		return b
+	})
+	if sameNamed {
+		base = append(append([]mt.Stmt{mk(0), mt.P(mt.MCall{Name: "mk", Args: []mt.Expr{mt.S("head")}})}, base...), mt.P(mt.MCall{Prefix: "_self", Name: "mk", Args: []mt.Expr{mt.S("foot")}}))
+	}
 	set.Add("t0", base)
 	defined := map[string]bool{"a": true, "b": true}
 	for lv := 1; lv < levels; lv++ {
@@ -149,6 +164,9 @@ func (p *c10) build(levels int, kinds [][]int, layout int, nameForm int, flag bo
 		}
 		body := []mt.Stmt{mt.Extends{E: ext}, mt.T("\nignored text\n"), tvSet,
 			mt.Macro{Name: fmt.Sprintf("tm%d", lv), Params: []string{"q"}, Body: []mt.Stmt{mt.T("<TM"), mt.P(mt.V("q")), mt.T(">")}}}
+		if sameNamed {
+			body = append(body, mk(lv))
+		}
 		// more things outside the blocks of an extending template, none of which may produce output
 		switch (lv*7 + layout*3 + len(kinds)) % 5 {
 		case 1:
